@@ -238,6 +238,68 @@ theorem serial_spec {cfg : Cfg} (lay : Layout cfg) : ∀ m, m ≤ cfg.n →
       exact Spec_congr (by intro j; constructor <;> intro h <;> omega) this
 
 
+/-! ### the serial writer starts from an empty file -/
+
+/-- the same configuration with every file initially empty: the serial writer opens the file "wb"
+    and relies on `seek` past the end leaving zero holes (external_data.py 575-586) -/
+def cfgEmpty (cfg : Cfg) : Cfg := { cfg with files := cfg.files.map (fun _ => []) }
+
+/-- the parallel writer's starting image (605-606 `truncate(total_size)`): all zeros and not longer
+    than the largest end of a tensor (an empty file — serial shard writers — qualifies) -/
+structure Prealloc (cfg : Cfg) : Prop where
+  zeros : ∀ φ k, getB (cfg.files.getD φ []) k = 0
+  tight : ∀ φ, (cfg.files.getD φ []).length = 0 ∨ ∃ i, i < cfg.n ∧ cfg.file i = φ ∧ cfg.data i ≠ [] ∧
+    (cfg.files.getD φ []).length = cfg.off i + (cfg.data i).length
+
+theorem getD_map_nil (fs : List (List Nat)) (φ : Nat) : (fs.map (fun _ => ([] : List Nat))).getD φ [] = [] := by
+  simp only [List.getD_eq_getElem?_getD, List.getElem?_map]
+  cases fs[φ]? <;> rfl
+
+/-- writing the same disjoint ranges into empty files (zero-filled gaps) gives the same images as
+    writing them into the zero-preallocated files -/
+theorem serial_from_empty {cfg : Cfg} (lay : Layout cfg) (pre : Prealloc cfg) :
+    serialFiles cfg = serialFiles (cfgEmpty cfg) := by
+  have lay0 : Layout (cfgEmpty cfg) :=
+    ⟨fun i hi => by
+      show cfg.file i < (cfg.files.map (fun _ => ([] : List Nat))).length
+      simp; exact lay.file_lt i hi, lay.disjoint⟩
+  have h := serial_spec lay cfg.n (Nat.le_refl _)
+  have h0 := serial_spec lay0 cfg.n (Nat.le_refl _)
+  have e0 : serialFiles (cfgEmpty cfg) =
+      (List.range cfg.n).foldl (writeTask (cfgEmpty cfg)) (cfgEmpty cfg).files := rfl
+  have e1 : serialFiles cfg = (List.range cfg.n).foldl (writeTask cfg) cfg.files := rfl
+  rw [e0, e1]
+  generalize (List.range cfg.n).foldl (writeTask (cfgEmpty cfg)) (cfgEmpty cfg).files = F0 at h0
+  refine Spec_ext h ⟨?_, h0.cov, ?_, ?_, h0.len_ge, ?_⟩
+  · have := h0.nfiles; simpa [cfgEmpty] using this
+  · intro φ k hn
+    rw [pre.zeros φ k]
+    have := h0.unc φ k hn
+    rw [this]; show getB ((cfg.files.map (fun _ => [])).getD φ []) k = 0
+    rw [getD_map_nil]; rfl
+  · intro φ
+    rcases pre.tight φ with e | ⟨i, hi, hf, hd, e⟩
+    · omega
+    · rw [e, ← hf]
+      have h3 : cfg.off i + (cfg.data i).length ≤ (F0.getD (cfg.file i) []).length := h0.len_ge i hi hd
+      exact h3
+  · intro φ
+    rcases h0.len_eq φ with e | ⟨i, hi, hf, hd, e⟩
+    · have e' : (F0.getD φ []).length = 0 := by
+        rw [e]; show ((cfg.files.map (fun _ => [])).getD φ []).length = 0
+        rw [getD_map_nil]; rfl
+      rcases pre.tight φ with e2 | ⟨i, hi, hf, hd, e2⟩
+      · left; omega
+      · exfalso
+        have h3 : cfg.off i + (cfg.data i).length ≤ (F0.getD (cfg.file i) []).length := h0.len_ge i hi hd
+        rw [hf] at h3
+        have : 0 < (cfg.data i).length := by
+          cases hdd : cfg.data i with
+          | nil => exact absurd hdd hd
+          | cons a b => simp
+        omega
+    · exact Or.inr ⟨i, hi, hf, hd, e⟩
+
 /-! ### the image along a concurrent run -/
 
 /-- the bytes of this tensor have been written -/
